@@ -179,3 +179,23 @@ Definition class1 (r : req) : bool :=
 Definition check_case (c : case) : N :=
   verdict (corr_ok c) (spec_but_scores c && spec_scores c)
           (if class1 (c_req c) && spec_but_scores c then 1 else 0).
+
+(** known class 2 (tie layer only): the request asked for a pruning execution strategy (wand / bmw).
+    Without explain the executor may prune, so [total_hits_estimate] is a lower bound; explain
+    attaches the score hook, which (since the repair of C09's second defect) disables pruning and
+    makes the total exact. Hits, order, scores, cursors and aggregations are unaffected. *)
+Definition strip_total (o : obs) : obs :=
+  {| o_hits := o_hits o; o_total := 0; o_cursor := o_cursor o; o_aggs := o_aggs o;
+     o_groups := o_groups o; o_finals := o_finals o; o_inner := o_inner o |}.
+
+Definition strip_totals (c : case) : case :=
+  {| c_req := c_req c; c_plain := c_plain c; c_segs := c_segs c;
+     c_obs := map (fun fo => (fst fo, strip_total (snd fo))) (c_obs c) |}.
+
+Definition check_case2 (pc : bool * case) : N :=
+  let (prunes, c) := pc in
+  let v := check_case c in
+  if (v =? 2) && prunes then
+    let w := check_case (strip_totals c) in
+    if w =? 2 then 2 else if w <? 100 then 102 else w
+  else v.
